@@ -187,6 +187,12 @@ def step1 (w : W) (op impl : String) : W × String × Verdict :=
       else if expected != impl then ["C08[crash-state-differs]"] else []
     let (m, v) := finish w' impl expected (implDs.getD 0 "") (digest s') implRes "ok" extra
     (w', m, v)
+  | ["c8rebuild", _, _, _] =>
+    -- a start-up that rebuilds derived data, crashed at any of its commit boundaries: the restarted node must come
+    -- up, verify, hold exactly the never-crashed node's data (C07 `rebuild_from_blocks_same`: that data is a
+    -- function of the stored chain) and accept the next block
+    if implRes.startsWith "ok" then (w, impl, .hold)
+    else (w, "Rok #props:C08[crash-during-startup-rebuild]", .fail)
   | ["c8same"] =>
     let expected := "Rok " ++ digest w.r ++ " " ++ digest w.f
     let same := implDs.getD 0 "a" == implDs.getD 1 "b"
